@@ -115,6 +115,9 @@ fn c01() {
             jobs.push(Job { harness: "c01_writer_thread_append", cfg: json!({"n": n, "boxed": boxed, "pb": pb}) });
         }
     }
+    for boxed in [false, true] {
+        jobs.push(Job { harness: "c01_spawn_failure", cfg: json!({"boxed": boxed, "pb": 0}) });
+    }
     finish(rep, jobs, "Every schedule (DPOR, preemption bound as configured) of P producer threads x n appends through typed/boxed handles against the real writer thread, for every stream-result script and clock-jump position listed.");
 }
 
